@@ -30,6 +30,6 @@ theorem decryptInit_header_rest (P : Prims) (hP : P.Correct) (fk : Bytes) (stanz
   simp only [hne, Bool.false_eq_true, if_false, hparse]
   rw [identityLoop_found P stanzas pre post id fk hpre hid 0 0]
   have hfe : fk.isEmpty = false := by cases fk with | nil => exact absurd rfl hfk | cons _ _ => rfl
-  simp only [hfe, Bool.false_eq_true, if_false, ne_eq, not_true_eq_false, Nat.zero_add]
+  simp only [hfe, Bool.false_and, Bool.false_eq_true, if_false, ne_eq, not_true_eq_false, Nat.zero_add]
 
 end AgeModel
